@@ -226,6 +226,9 @@ func (x *Exec) valuesEqual(a, b Value) *Term {
 			return mkAnd(cs...)
 		}
 	case *Ptr:
+		if ob, ok := b.(*Opaque); ok && ob.id != nil && va.sym != nil && len(va.path) == 0 {
+			return mkEq(va.sym, ob.id) // identities of unknown objects
+		}
 		if vb, ok := b.(*Ptr); ok {
 			if va.cell == nil || vb.cell == nil {
 				return mkBool(va.cell == vb.cell)
@@ -263,6 +266,9 @@ func (x *Exec) valuesEqual(a, b Value) *Term {
 			return tFalse // abstract shapes are non-nil and distinct from concrete ones
 		}
 	case *Opaque:
+		if pb, ok := b.(*Ptr); ok && va.id != nil && pb.sym != nil && len(pb.path) == 0 {
+			return mkEq(va.id, pb.sym)
+		}
 		isNilB := false
 		switch vb := b.(type) {
 		case *Iface:
@@ -586,7 +592,9 @@ func (x *Exec) index(st *State, fr *Frame, in *ssa.Index) Value {
 
 func (x *Exec) selectSym(el []Value, off, n int, idx *Term) Value {
 	if n == 0 {
-		fail("select from empty aggregate")
+		// out-of-range read in a specification: unspecified value
+		x.symArrCtr++
+		return &Opaque{tag: "unspecified", id: freshVar(fmt.Sprintf("unspec%d", x.symArrCtr), SInt)}
 	}
 	v := el[off+n-1]
 	for i := n - 2; i >= 0; i-- {
